@@ -31,6 +31,12 @@ INT_SIZES = {'Int8ul': 1, 'Int16ul': 2, 'Int32ul': 4, 'Int64ul': 8, 'Byte': 1}
 
 
 def need(it, reader, n, node=None):
+    # ghost count of the bytes the stream hands out: n, or whatever is left when the read comes up short (construct reads
+    # what there is and fails afterwards)
+    avail = reader.end() - reader.pos
+    nt = n if not isinstance(n, int) else z3.IntVal(n)
+    got = z3.If(reader.pos + nt > reader.end(), z3.If(avail > 0, avail, 0), nt)
+    reader._write('nbytes', z3.simplify(getattr(reader, 'nbytes', z3.IntVal(0)) + got))
     it.raise_if(reader.pos + n > reader.end(), 'StreamError', 'stream-eof', node)
 
 
@@ -198,13 +204,18 @@ def parse(it, d, reader, ctxobj=None, node=None):
             try:
                 return parse(it, alt, reader, ctxobj, node)
             except PyExc as e:
-                if e.cls_name not in ('StreamError', 'ConstError', 'RangeError', 'UnicodeDecodeError', 'ValueError'):
+                if e.cls_name == 'ExplicitError':      # construct: Select swallows every exception of an alternative but this one
                     raise
                 reader._write('pos', save)
                 last = e
         raise PyExc('SelectError', 'no alternative parsed', site=getattr(last, 'site', None), kind='select')
     if k == 'BitStruct':
         return parse_bitstruct(it, d, reader, node)
+    if k == 'Computed':
+        v = d.args[0] if d.args else None
+        if isinstance(v, (int, str, bytes, bool, type(None))):
+            return v                   # a constant: nothing is read
+        raise Unsupported('Computed(<function>)')
     raise Unsupported('construct %s' % k)
 
 
